@@ -42,3 +42,38 @@ Theorem C07_meek_tied_list_arithmetics :
   (forall p d, minlaws (Fixed p d)) /\ (forall p g d st, 0 <= g -> minlaws (Guarded p g d st)) /\ (forall dp, minlaws (Rational dp)).
 Proof. exact (conj minlaws_fixed (conj minlaws_guarded minlaws_rational)). Qed.
 Print Assumptions C07_meek_tied_list_arithmetics.
+
+(* ---- "A candidate excluded singly is always one with the lowest tally among continuing candidates": the single-exclusion
+   step of every Gregory rule, in EVERY state it can be run in (Fixed / integer / Guarded guard 0).
+   [excludes_a_lowest s s'] : there is a hopeful candidate c of s whose tally is <= every hopeful's tally, and the statuses
+   and pending flags of s' are those of s with c (and nobody else) changed to defeated. *)
+From Droop Require Import Model.RulesGregory Proofs.ForwardOps Proofs.LowestExcluded.
+Theorem C07_single_exclusion_excludes_a_lowest_candidate : forall A S (ZL : zlike A S) cfg, exact A = false ->
+  forall bt msg (s : est A), bt_ok A bt ->
+  crashed (defeat_low A cfg bt msg s) = false ->
+  excludes_a_lowest A S ZL s (defeat_low A cfg bt msg s) \/
+  (exists lv lows, low_candidates A s = Some (lv, lows) /\ snd (bt lows s) = None).
+Proof. exact defeat_low_excludes_a_lowest. Qed.
+Print Assumptions C07_single_exclusion_excludes_a_lowest_candidate.
+
+(* with the tie-break by lot of wigm, wigm-prf, cfer and mpls the second case is a crash, so: *)
+Theorem C07_single_exclusion_wigm_prf : forall A S (ZL : zlike A S) cfg, exact A = false -> forall reason msg (s : est A),
+  crashed (defeat_low A cfg (bt_simple A cfg reason) msg s) = false ->
+  excludes_a_lowest A S ZL s (defeat_low A cfg (bt_simple A cfg reason) msg s).
+Proof. exact defeat_low_simple_excludes_a_lowest. Qed.
+Print Assumptions C07_single_exclusion_wigm_prf.
+
+Theorem C07_single_exclusion_wigm : forall A S (ZL : zlike A S) cfg, exact A = false -> forall s : est A,
+  cf_batch_zero cfg = false -> crashed (wigm_defeat A cfg s) = false -> excludes_a_lowest A S ZL s (wigm_defeat A cfg s).
+Proof. exact wigm_defeat_excludes_a_lowest. Qed.
+Print Assumptions C07_single_exclusion_wigm.
+
+Theorem C07_single_exclusion_cfer : forall A S (ZL : zlike A S) cfg, exact A = false -> forall s : est A,
+  crashed (cfer_defeat_low A cfg s) = false -> excludes_a_lowest A S ZL s (cfer_defeat_low A cfg s).
+Proof. exact cfer_defeat_low_excludes_a_lowest. Qed.
+Print Assumptions C07_single_exclusion_cfer.
+
+Theorem C07_single_exclusion_mpls : forall A S (ZL : zlike A S) cfg, exact A = false -> forall s : est A,
+  crashed (mpls_defeat_low A cfg s) = false -> excludes_a_lowest A S ZL s (mpls_defeat_low A cfg s).
+Proof. exact mpls_defeat_low_excludes_a_lowest. Qed.
+Print Assumptions C07_single_exclusion_mpls.
